@@ -7,7 +7,11 @@ Three front ends (DESIGN.md section 4):
   (b) expression front end: small pure functions and constants -> Gallina definitions (Gen/Funs.v);
   (c) read-layout front end: the sequential cursor reads of game_start / player / game_end in
       src/io/slippi/de.rs -> (name, offset, width) tables (Gen/Layouts.v), checked against the hand model
-      Model/Start.v by Proofs/StartLayout.v.
+      Model/Start.v by Proofs/StartLayout.v;
+  (d) writer-table front end: the `sizes.push` tree of payload_sizes (src/io/slippi/ser.rs) -> Gen/WriterSizes.v
+      (checked against Model/Writer.v by Proofs/WriterLayout.v); the tar_append sequence of src/io/peppi/ser.rs
+      fn write and the file-name match of src/io/peppi/de.rs fn read -> Gen/SlppEntries.v (checked against
+      Model/Slpp.v by Proofs/SlppLayout.v).
 
 Anything it does not recognise is a loud failure (exit 3, message naming file/item/token): the checks then
 treat every property that depends on the tables as "tie broken" and go searching for a failing input.
@@ -2072,6 +2076,396 @@ def gen_layouts():
     return '\n'.join(L) + '\n'
 
 
+# ------------------------------------------------------------------------------------------------
+# (d) writer-table front end: payload_sizes (src/io/slippi/ser.rs) and the .slpp archive entries
+#     (src/io/peppi/ser.rs fn write, src/io/peppi/de.rs fn read)
+
+SLP_SER = 'src/io/slippi/ser.rs'
+SLPP_SER = 'src/io/peppi/ser.rs'
+SLPP_DE = 'src/io/peppi/de.rs'
+SIZE_OF = {'u8': 1, 'i8': 1, 'u16': 2, 'i16': 2, 'u32': 4, 'i32': 4, 'f32': 4, 'u64': 8, 'i64': 8, 'f64': 8}
+PUSH_BODY = 'self . sizes . push ( ( event as u8 , size . try_into ( ) . unwrap ( ) ) )'
+TAR_APPEND_BODY = ('let mut header = tar :: Header :: new_gnu ( ) ; header . set_size ( buf . len ( ) . try_into ( ) ? ) ; '
+                   'header . set_path ( path ) ? ; header . set_mode ( 0 o644 ) ; header . set_cksum ( ) ; '   # the tokenizer splits 0o644
+                   
+                   'builder . append ( & header , buf ) ? ; Ok ( ( ) )')
+
+
+class StmtView(LayoutWalker):
+    """the statement splitter and bracket helpers of LayoutWalker over an arbitrary token list"""
+
+    def __init__(self, toks, where):
+        self.t = toks
+        self.where = where
+
+
+def imported_from(rel, group):
+    """names imported by `use crate::{ ... <group>::{A, B, ..} ... }` in rel; group is a token list such as
+    ['frame', '::', 'immutable'] -- nested groups inside are not descended into"""
+    toks = tokenize(read(rel), rel)
+    vals = tv(toks)
+    out = set()
+    n = len(group)
+    i = 0
+    while i < len(vals):
+        if vals[i] == 'use' and toks[i][0] == 'id':
+            e = vals.index(';', i)
+            for j in range(i, e - n):
+                if vals[j:j + n] == group and vals[j + n] == '::' and vals[j + n + 1] == '{' and vals[j - 1] in ('{', ',', '::'):
+                    c = match_close(toks, j + n + 1)
+                    d = 0
+                    for x in range(j + n + 2, c):
+                        if vals[x] == '{':
+                            d += 1
+                        elif vals[x] == '}':
+                            d -= 1
+                        elif d == 0 and toks[x][0] == 'id' and vals[x - 1] in ('{', ',') and vals[x + 1] in (',', '}'):
+                            out.add(vals[x])
+            i = e
+        i += 1
+    return out
+
+
+def const_usize_expr(toks, where):
+    """a `const X: usize = ...` initialiser: products and sums of integer literals and [std::mem::]size_of::<prim>()"""
+    s = sj(toks)
+    s = re.sub(r'(?:std :: mem :: )?size_of :: < (\w+) > \( \)', lambda m: str(SIZE_OF[m.group(1)]) if m.group(1) in SIZE_OF else m.group(0), s)
+    if not re.fullmatch(r'\d+(?: [*+] \d+)*', s):
+        raise TranslateError('%s: unrecognised constant initialiser: %s' % (where, sj(toks)))
+    return sum(eval_prod(p) for p in s.split(' + '))
+
+
+def eval_prod(p):
+    r = 1
+    for f in p.split(' * '):
+        r *= int(f)
+    return r
+
+
+def gen_payload_sizes():
+    where = '%s fn payload_sizes' % SLP_SER
+    params, ret, body = find_fn(SLP_SER, None, 'payload_sizes')
+    if sj(params) != 'game : & Game' or sj(ret) != '-> PayloadSizes':
+        raise TranslateError('%s: unexpected signature (%s) %s' % (where, sj(params), sj(ret)))
+    # PayloadSizes: Vec<(u8, u16)>, push = (event as u8, size.try_into().unwrap())  -- the u16 conversion is Panic 401
+    all_toks = tokenize(read(SLP_SER), SLP_SER)
+    decl = parse_struct_decl(all_toks, 'PayloadSizes', SLP_SER)
+    if decl != [('sizes', 'Vec < ( u8 , u16 ) >')]:
+        raise TranslateError('%s: struct PayloadSizes is not { sizes: Vec<(u8, u16)> }: %s' % (SLP_SER, decl))
+    pp, pr, pb = find_fn(SLP_SER, 'PayloadSizes', 'push')
+    if sj(pb) != PUSH_BODY or sj(pp) != '& mut self , event : Event , size : usize':
+        raise TranslateError('%s PayloadSizes::push: not the expected helper: %s' % (SLP_SER, sj(pb)[:200]))
+    records = imported_from(SLP_SER, ['frame', '::', 'immutable'])
+    if 'Event' not in imported_from(SLP_SER, ['slippi']) and find_seq(all_toks, ['de', '::', 'Event']) < 0:
+        raise TranslateError('%s: Event is not imported from io::slippi::de' % SLP_SER)
+    if find_seq(all_toks, ['slippi', '::', '{', 'self', ',', 'de', '::', 'Event', '}']) < 0:
+        raise TranslateError('%s: `slippi::{self, de::Event}` import not found' % SLP_SER)
+    if 'game' not in tv(all_toks) or find_seq(all_toks, ['game', '::', '{', 'self', ',']) < 0:
+        raise TranslateError('%s: `game::{self, ..}` import not found' % SLP_SER)
+    events = dict(enum_codes('src/io/slippi/de.rs', 'Event'))
+    consts = {}
+    rows = []          # (event, psize text, gates, needs_gecko)
+    state = {'sizes': False, 'ver': False, 'done': False}
+
+    def size_expr(toks, gecko_var):
+        s = sj(toks)
+        if s == 'game . start . bytes . 0 . len ( )':
+            return 'PsStartBytes'
+        if s == 'game . end . as_ref ( ) . map_or ( game :: End :: size ( ver ) , | e | e . bytes . 0 . len ( ) )':
+            return 'PsEndBytesOrDefault'
+        if gecko_var is not None and s == '%s . actual_size as u16 as usize' % gecko_var:
+            return 'PsGeckoActualU16'
+        if re.fullmatch(r'\d[\d_]*(?:usize)?', s):
+            return 'PsConst %d' % num(s)
+        terms = s.split(' + ')
+        hdr = 0
+        rec = None
+        for t in terms:
+            m = re.fullmatch(r'(\w+) :: size \( ver \)', t)
+            if m and m.group(1) in records and m.group(1) in GEN_STRUCTS and rec is None:
+                rec = m.group(1)
+            elif t in consts:
+                hdr += consts[t]
+            elif re.fullmatch(r'\d[\d_]*(?:usize)?', t):
+                hdr += num(t)
+            else:
+                raise TranslateError('%s: unrecognised size expression: %s' % (where, s))
+        if rec is None:
+            raise TranslateError('%s: unrecognised size expression (no <Record>::size(ver) term): %s' % (where, s))
+        return 'PsRow %d %s' % (hdr, coq_str(rec))
+
+    def block(toks, gates, gecko_var):
+        sv = StmtView(toks, where)
+        for (a, b) in sv.statements(0, len(toks)):
+            st = toks[a:b]
+            s = sj(st)
+            if state['done']:
+                raise TranslateError('%s: statement after the final `sizes`: %s' % (where, s[:200]))
+            if s == 'let mut sizes = PayloadSizes :: new ( )' and not gates and gecko_var is None and not state['sizes']:
+                state['sizes'] = True
+                continue
+            if s in ('let ver = game . start . slippi . version . clone ( )', 'let ver = game . start . slippi . version') \
+                    and not gates and gecko_var is None and not state['ver']:
+                state['ver'] = True
+                continue
+            m = re.fullmatch(r'const (\w+) : usize = (.*)', s)
+            if m:
+                eq = tv(st).index('=')
+                consts[m.group(1)] = const_usize_expr(st[eq + 1:], '%s const %s' % (where, m.group(1)))
+                continue
+            if tv(st[:4]) == ['sizes', '.', 'push', '('] and match_close(st, 3) == len(st) - 1:
+                if not (state['sizes'] and state['ver']):
+                    raise TranslateError('%s: sizes.push before `let mut sizes` / `let ver`' % where)
+                args, _ = StmtView(st, where).split_top(4, len(st) - 1, ',')
+                if len(args) != 2:
+                    raise TranslateError('%s: sizes.push with %d arguments: %s' % (where, len(args), s[:200]))
+                ev = tv(st[args[0][0]:args[0][1]])
+                if len(ev) != 3 or ev[:2] != ['Event', '::'] or ev[2] not in events:
+                    raise TranslateError('%s: sizes.push: the event is not Event::<variant of de::Event>: %s' % (where, ' '.join(ev)))
+                if ev[2] in [r[0] for r in rows]:
+                    raise TranslateError('%s: Event::%s is pushed twice' % (where, ev[2]))
+                rows.append((ev[2], size_expr(st[args[1][0]:args[1][1]], gecko_var), list(gates), gecko_var is not None))
+                continue
+            if tv(st[:1]) == ['if']:
+                j = sv.first_top(a + 1, b, '{')
+                c = match_close(toks, j) if j >= 0 else -1
+                if j < 0 or c != b - 1:
+                    raise TranslateError('%s: `if` with an `else` or trailing tokens: %s' % (where, s[:200]))
+                cond = sj(toks[a + 1:j])
+                m = re.fullmatch(r'ver \. gte \( (\d+) , (\d+) \)', cond)
+                if m:
+                    block(toks[j + 1:c], gates + [(int(m.group(1)), int(m.group(2)))], gecko_var)
+                    continue
+                m = re.fullmatch(r'let Some \( (\w+) \) = & game \. gecko_codes', cond)
+                if m and gecko_var is None:
+                    block(toks[j + 1:c], gates, m.group(1))
+                    continue
+                raise TranslateError('%s: unrecognised condition: if %s' % (where, cond[:200]))
+            if s == 'sizes' and not gates and gecko_var is None:
+                state['done'] = True
+                continue
+            raise TranslateError('%s: unrecognised statement: %s' % (where, s[:200]))
+
+    block(body, [], None)
+    if not state['done']:
+        raise TranslateError('%s: the function does not end with `sizes`' % where)
+    L = []
+    L.append('(* GENERATED by tools/rust2coq.py from %s (fn payload_sizes, PayloadSizes::push) and the Event enum of' % SLP_SER)
+    L.append('   src/io/slippi/de.rs -- do not edit. *)')
+    L.append('From Coq Require Import NArith List String.')
+    L.append('From Peppi Require Import Gen.Funs.')
+    L.append('Import ListNotations.')
+    L.append('Local Open Scope string_scope.')
+    L.append('')
+    L.append('(* the size expressions of `sizes.push(Event::X, <size>)`:')
+    L.append('   PsStartBytes          game.start.bytes.0.len()')
+    L.append('   PsEndBytesOrDefault   game.end.as_ref().map_or(game::End::size(ver), |e| e.bytes.0.len())')
+    L.append('   PsRow hdr R           <constants summing to hdr> + R::size(ver), R a record of frame::immutable')
+    L.append('   PsGeckoActualU16      codes.actual_size as u16 as usize, under `if let Some(codes) = &game.gecko_codes`')
+    L.append('   PsConst n             the integer literal n *)')
+    L.append('Inductive psize := PsStartBytes | PsEndBytesOrDefault | PsRow (hdr : nat) (record : string) | PsGeckoActualU16 | PsConst (n : nat).')
+    L.append('')
+    L.append('(* local constants of payload_sizes *)')
+    L.append('Definition payload_sizes_consts : list (string * nat) := [%s].' % '; '.join('(%s, %d)' % (coq_str(k), v) for k, v in consts.items()))
+    L.append('(* (event, size, enclosing `if ver.gte(M, m)` gates outermost first, under `if let Some(..) = &game.gecko_codes`)')
+    L.append('   for every push, in source order; each push converts the size to u16 with try_into().unwrap() *)')
+    L.append('Definition payload_sizes_src_tbl : list (string * psize * list (N * N) * bool) :=\n  [%s].' % ';\n   '.join(
+        '(%s, %s, [%s], %s)' % (coq_str(e), p, '; '.join('(%d, %d)%%N' % g for g in gs), 'true' if gk else 'false') for (e, p, gs, gk) in rows))
+    L.append('(* de::Event: variant name -> code (the Event_* constants of Gen/Funs.v) *)')
+    L.append('Definition Event_by_name : list (string * N) :=\n  [%s].' % '; '.join('(%s, Event_%s)' % (coq_str(n), n) for n in events))
+    return '\n'.join(L) + '\n'
+
+
+def gen_slpp_entries():
+    # ---- the writer
+    where = '%s fn write' % SLPP_SER
+    params, ret, body = find_fn(SLPP_SER, None, 'tar_append')
+    if sj(body) != TAR_APPEND_BODY or not sj(params).startswith('builder : & mut tar :: Builder < W > , buf : & [ u8 ] , path : P'):
+        raise TranslateError('%s fn tar_append: not the expected helper: %s' % (SLPP_SER, sj(body)[:300]))
+    params, ret, body = find_fn(SLPP_SER, None, 'write')
+    ps = parse_params(params, where)
+    if ('game', 'Game') not in ps:
+        raise TranslateError('%s: no parameter `game: Game`' % where)
+    entries = []
+    used = set()
+    seen_tar = {'let': False, 'fin': False}
+
+    def trig(tok):
+        return tok[0] == 'id' and tok[1] in ('tar_append', 'tar')
+
+    for i, tok in enumerate(body):
+        if tok == ('id', 'return'):
+            raise TranslateError('%s: `return`: the entries after it would be conditional' % where)
+
+    def wblock(toks, guard, base):
+        sv = StmtView(toks, where)
+        for (a, b) in sv.statements(0, len(toks)):
+            st = toks[a:b]
+            s = sj(st)
+            if not any(trig(t) for t in st):
+                continue
+            if seen_tar['fin']:
+                raise TranslateError('%s: the archive is used after `tar.into_inner()`: %s' % (where, s[:200]))
+            if s == 'let mut tar = tar :: Builder :: new ( w )' and guard is None and base == 'top':
+                seen_tar['let'] = True
+                continue
+            if s == 'tar . into_inner ( ) ? . flush ( ) ?' and guard is None and base == 'top':
+                seen_tar['fin'] = True
+                continue
+            if tv(st[:2]) == ['tar_append', '('] and tv(st[-1:]) == ['?'] and match_close(st, 1) == len(st) - 2:
+                if not seen_tar['let']:
+                    raise TranslateError('%s: tar_append before `let mut tar = tar::Builder::new(w)`' % where)
+                args, _ = StmtView(st, where).split_top(2, len(st) - 2, ',')
+                if len(args) != 3 or tv(st[args[0][0]:args[0][1]]) != ['&', 'mut', 'tar']:
+                    raise TranslateError('%s: tar_append: expected (&mut tar, <content>, "<name>"): %s' % (where, s[:200]))
+                if any(trig(t) for t in st[args[1][0]:args[1][1]]):
+                    raise TranslateError('%s: tar_append: the content mentions the archive: %s' % (where, s[:200]))
+                nm = st[args[2][0]:args[2][1]]
+                if len(nm) != 1 or nm[0][0] != 'str' or not re.fullmatch(r'"[A-Za-z0-9_.\-]+"', nm[0][1]):
+                    raise TranslateError('%s: tar_append: the name is not a plain string literal: %s' % (where, sj(nm)))
+                name = nm[0][1][1:-1]
+                if name in [e[0] for e in entries]:
+                    raise TranslateError('%s: entry %s is appended twice' % (where, name))
+                entries.append((name, guard))
+                continue
+            if tv(st[:1]) == ['{'] and match_close(st, 0) == len(st) - 1:
+                wblock(st[1:-1], guard, 'block')
+                continue
+            if tv(st[:1]) == ['if']:
+                j = sv.first_top(a + 1, b, '{')
+                c = match_close(toks, j) if j >= 0 else -1
+                cond = sj(toks[a + 1:j]) if j >= 0 else ''
+                m = re.fullmatch(r'let Some \( (\w+) \) = & game \. (end|gecko_codes)', cond)
+                if m and c == b - 1 and guard is None:
+                    wblock(toks[j + 1:c], m.group(2), 'if')
+                    continue
+                raise TranslateError('%s: entries under an unrecognised condition (only `if let Some(x) = &game.end` / `&game.gecko_codes`, '
+                                     'not nested, no else): %s' % (where, s[:200]))
+            raise TranslateError('%s: unrecognised statement that mentions the archive: %s' % (where, s[:200]))
+
+    wblock(body, None, 'top')
+    if not seen_tar['fin']:
+        raise TranslateError('%s: `tar.into_inner()?.flush()?` not found' % where)
+
+    # ---- the reader
+    where = '%s fn read' % SLPP_DE
+    params, ret, body = find_fn(SLPP_DE, None, 'read')
+    sv = StmtView(body, where)
+    vars_ = []          # let mut X: Option<..> = None;
+    loops = []
+    for (a, b) in sv.statements(0, len(body)):
+        s = sj(body[a:b])
+        m = re.fullmatch(r'let mut (\w+) : Option < .* > = None', s)
+        if m:
+            vars_.append(m.group(1))
+        if tv(body[a:a + 1]) == ['for'] or 'tar :: Archive' in s:
+            loops.append((a, b))
+    if len(loops) != 1:
+        raise TranslateError('%s: expected exactly one loop over tar::Archive entries, found %d' % (where, len(loops)))
+    a, b = loops[0]
+    j = sv.first_top(a + 1, b, '{')
+    if j < 0 or match_close(body, j) != b - 1 or sj(body[a:j]) != 'for entry in tar :: Archive :: new ( r ) . entries ( ) ?':
+        raise TranslateError('%s: the loop is not `for entry in tar::Archive::new(r).entries()? { .. }`: %s' % (where, sj(body[a:j if j > 0 else b])[:200]))
+    inner = body[j + 1:b - 1]
+    iv = StmtView(inner, where)
+    arms = None
+    pre = []
+    for (x, y) in iv.statements(0, len(inner)):
+        st = inner[x:y]
+        s = sj(st)
+        if tv(st[:1]) == ['match']:
+            if arms is not None:
+                raise TranslateError('%s: two `match` statements in the loop' % where)
+            k = iv.first_top(x + 1, y, '{')
+            if k < 0 or match_close(inner, k) != y - 1:
+                raise TranslateError('%s: unexpected tokens after the match' % where)
+            if sj(inner[x + 1:k]) != 'path . file_name ( ) . and_then ( | n | n . to_str ( ) )':
+                raise TranslateError('%s: the match is not on path.file_name().and_then(|n| n.to_str()): %s' % (where, sj(inner[x + 1:k])[:200]))
+            if pre != ['let mut file = entry ?', 'let path = file . path ( ) ?']:
+                raise TranslateError('%s: expected `let mut file = entry?; let path = file.path()?;` before the match, found: %s' % (where, pre))
+            arms = inner[k + 1:y - 1]
+        elif arms is None and re.fullmatch(r'(debug|trace|info) ! \( .* \)', s):
+            continue
+        elif arms is None and s.startswith('let '):
+            pre.append(s)
+        else:
+            raise TranslateError('%s: unrecognised statement in the entry loop: %s' % (where, s[:200]))
+    if arms is None:
+        raise TranslateError('%s: no match on the file name in the entry loop' % where)
+    av = StmtView(arms, where)
+    names = []
+    i = 0
+    wild = False
+    while i < len(arms):
+        p = av.first_top(i, len(arms), '=>')
+        if p < 0:
+            raise TranslateError('%s: unrecognised match arm: %s' % (where, sj(arms[i:])[:200]))
+        pat = arms[i:p]
+        if av.is_p(p + 1, '{'):
+            e = match_close(arms, p + 1) + 1
+            bodyt = arms[p + 2:e - 1]
+        else:
+            e = av.first_top(p + 1, len(arms), ',')
+            e = len(arms) if e < 0 else e
+            bodyt = arms[p + 1:e]
+        nxt = e + 1 if av.is_p(e, ',') else e
+        brk = ('id', 'break') in bodyt
+        if wild:
+            raise TranslateError('%s: match arm after the catch-all arm' % where)
+        if sj(pat) == '_':
+            wild = True
+            if brk or ('id', 'continue') in bodyt or ('id', 'return') in bodyt:
+                raise TranslateError('%s: the catch-all arm does not just skip the entry' % where)
+            for v in vars_:
+                if re.search(r'(?:^| )%s = ' % re.escape(v), sj(bodyt)):
+                    raise TranslateError('%s: the catch-all arm assigns %s' % (where, v))
+        else:
+            if len(pat) != 4 or tv(pat[:2]) != ['Some', '('] or pat[2][0] != 'str' or tv(pat[3:]) != [')'] \
+                    or not re.fullmatch(r'"[A-Za-z0-9_.\-]+"', pat[2][1]):
+                raise TranslateError('%s: match pattern is not Some("<name>"): %s' % (where, sj(pat)[:200]))
+            name = pat[2][1][1:-1]
+            if name in [n[0] for n in names]:
+                raise TranslateError('%s: two arms for %s' % (where, name))
+            if ('id', 'continue') in bodyt:
+                raise TranslateError('%s: `continue` in the arm for %s' % (where, name))
+            if brk:
+                bv = StmtView(bodyt, where)
+                top = [sj(bodyt[x:y]) for (x, y) in bv.statements(0, len(bodyt))]
+                if top.count('break') != 1 or tv(bodyt).count('break') != 1 or top[-1] != 'break':
+                    raise TranslateError('%s: `break` in the arm for %s is not its last top-level statement' % (where, name))
+            # the Option variable the arm assigns
+            bv = StmtView(bodyt, where)
+            targets = []
+            for (x, y) in bv.statements(0, len(bodyt)):
+                m = re.match(r'(\w+) = ', sj(bodyt[x:y]))
+                if m and m.group(1) in vars_:
+                    targets.append(m.group(1))
+            if len(targets) != 1:
+                raise TranslateError('%s: the arm for %s does not assign exactly one of %s at its top level: %s' % (where, name, vars_, targets))
+            names.append((name, brk, targets[0]))
+        i = nxt
+    if not wild:
+        raise TranslateError('%s: no catch-all arm `_ => ..`' % where)
+    L = []
+    L.append('(* GENERATED by tools/rust2coq.py from %s (fn write) and %s (fn read) -- do not edit. *)' % (SLPP_SER, SLPP_DE))
+    L.append('From Coq Require Import List String.')
+    L.append('Import ListNotations.')
+    L.append('Local Open Scope string_scope.')
+    L.append('')
+    L.append('(* %s fn write: the `tar_append(&mut tar, <content>, "<name>")?` calls in source order; guard None: unconditional' % SLPP_SER)
+    L.append('   (top level or a bare block), Some "end" / Some "gecko_codes": inside `if let Some(..) = &game.end / &game.gecko_codes` *)')
+    L.append('Definition slpp_write_entries : list (string * option string) :=\n  [%s].' % '; '.join(
+        '(%s, %s)' % (coq_str(n), 'None' if g is None else 'Some %s' % coq_str(g)) for n, g in entries))
+    L.append('(* %s fn read: the arms `Some("<name>") => ..` of the match on the entry\'s file name, in order;' % SLPP_DE)
+    L.append('   true: the arm ends with `break` (the loop over the entries stops); the catch-all arm skips the entry *)')
+    L.append('Definition slpp_read_names : list (string * bool) :=\n  [%s].' % '; '.join(
+        '(%s, %s)' % (coq_str(n), 'true' if b else 'false') for n, b, _ in names))
+    L.append('(* ... and the `let mut <var>: Option<..> = None` that the arm assigns *)')
+    L.append('Definition slpp_read_targets : list (string * string) :=\n  [%s].' % '; '.join(
+        '(%s, %s)' % (coq_str(n), coq_str(t)) for n, _, t in names))
+    return '\n'.join(L) + '\n'
+
+
 def write_if_changed(path, content):
     os.makedirs(os.path.dirname(path), exist_ok=True)
     try:
@@ -2088,7 +2482,8 @@ def write_if_changed(path, content):
 def main():
     report = {'repo': REPO, 'files': [], 'changed': [], 'errors': []}
     ok = True
-    for name, gen in (('Funs.v', gen_funs), ('Tables.v', lambda: emit_tables(gen_tables())), ('Layouts.v', gen_layouts)):
+    for name, gen in (('Funs.v', gen_funs), ('Tables.v', lambda: emit_tables(gen_tables())), ('Layouts.v', gen_layouts),
+                      ('WriterSizes.v', gen_payload_sizes), ('SlppEntries.v', gen_slpp_entries)):
         try:
             content = gen()
             if write_if_changed(os.path.join(OUT, name), content):
